@@ -16,6 +16,7 @@ import (
 	"sync/atomic"
 	"time"
 
+	"go.uber.org/cff"
 	"vg/prog"
 )
 
@@ -517,6 +518,10 @@ func PanicValue(exec uint64, fn int, key uint64, kind int) interface{} {
 		return FieldErrors{fmt.Sprintf("exec %d", exec), fmt.Sprintf("fn %d", fn), fmt.Sprintf("key %d", key)} // an error of slice type
 	case 8:
 		return map[string]uint64{"exec": exec, "fn": uint64(fn), "key": key} // not comparable
+	case 9:
+		// what a function does that re-panics with the error of a directive it
+		// ran itself: the value is a *cff.PanicError (of another panic)
+		return &cff.PanicError{Value: fmt.Sprintf("inner panic of function %d key %d exec %d", fn, key, exec), Stacktrace: []byte("inner")}
 	default:
 		return 1000000 + fn
 	}
